@@ -229,4 +229,10 @@ def r7_skip_without_buffer(ctx):
         ctx.ob("R7", "read_to_end[no buffer]:others", bool(rest) and all(v == {("name",)} for v in rest.values()), "any other event: skip up to the end of `name`: %s" % {str(k): sorted(v) for k, v in rest.items()}, config=cfg)
 
 
-RULES = [("R1", r1_trim_table), ("R2", r2_merge), ("R3", r3_expand), ("R4", r4_unknown_skipped), ("R5", r5_trimmer_in_sync), ("R6", r6_pieces_decoded_alike), ("R7", r7_skip_without_buffer)]
+def r8_whitespace_notion(ctx):
+    """whitespace that may be added between elements or trimmed from text is XML whitespace, decided by one predicate"""
+    for cfg, F in ctx.facts.items():
+        one_whitespace_notion(ctx, "R8", F, cfg)
+
+
+RULES = [("R1", r1_trim_table), ("R2", r2_merge), ("R3", r3_expand), ("R4", r4_unknown_skipped), ("R5", r5_trimmer_in_sync), ("R6", r6_pieces_decoded_alike), ("R7", r7_skip_without_buffer), ("R8", r8_whitespace_notion)]
